@@ -569,6 +569,8 @@ class SymbolValue(Value):
         if symbol.is_numeric():
             return NumericValue(symbol.int)
 
+        raise ValueError("[{}] is neither a number nor an address".format(self.value))
+
     def is_8_bit(self):
         return False
 
